@@ -187,58 +187,50 @@ def run(repo, rep, tier):
 
     # ---- R2 tuple conventions
     sm = repo.func("cell.py", "Cell._set_merge")
-    from ..symexec import subst as _subst
-    single = {}
-    counts = {}
-    for n in body_walk(sm):
-        if isinstance(n, ast.Assign) and len(n.targets) == 1 and isinstance(n.targets[0], (ast.Name, ast.Attribute)):
-            k_ = U(n.targets[0])
-            counts[k_] = counts.get(k_, 0) + 1
-            single[k_] = n.value
-    single = {k_: v_ for k_, v_ in single.items() if counts[k_] == 1}
+    # the function summary of _set_merge (stores as effects, later reads of a stored field see the stored value), asked for
+    # a MergeReference, a MergeAnchor and anything else
+    from ..funsum import Summarizer as _Summ, decide as _decide, simplify as _simplify
+    sm_paths = _Summ(consts=repo.consts).summarize(sm)
+    A_REF, A_ANC = "isinstance(merge_ref, MergeReference)", "isinstance(merge_ref, MergeAnchor)"
 
-    def resolve(e, depth=0):
-        """Substitute single-assignment locals and the self.<field> values stored by this very function."""
-        cur = e
-        for _ in range(5):
-            names = {k_: v_ for k_, v_ in single.items() if "." not in k_}
-            nxt = _subst(cur, names)
-            class _A(ast.NodeTransformer):
-                def visit_Attribute(self, node):
-                    k2 = U(node)
-                    if k2 in single and isinstance(node.ctx, ast.Load):
-                        return _subst(single[k2], {})
-                    return self.generic_visit(node)
-            nxt = _A().visit(nxt)
-            if U(nxt) == U(cur):
-                break
-            cur = nxt
-        return U(cur).replace(" ", "")
+    def stores_in(sc):
+        outs = _decide(sm_paths, sc, limit=4)
+        if len(outs) != 1:
+            raise AnalysisError(f"Cell._set_merge: {len(outs)} outcomes for one kind of merge entry")
+        pth = outs[0][3]
+        fx = {}
+        for k_, v_, _n in pth.effects:
+            if isinstance(v_, ast.AST):
+                fx[k_] = _simplify(v_, sc)
+        return fx, pth
 
+    ref_fx, ref_path = stores_in({A_REF: True, A_ANC: False})
+    anc_fx, _anc_path = stores_in({A_REF: False, A_ANC: True})
+    oth_fx, _oth_path = stores_in({A_REF: False, A_ANC: False})
+    txt = lambda e: U(e).replace(" ", "") if e is not None else None  # noqa: E731
     R = "merge_ref.rect"
     want = {"self.row_start": f"{R}[0]", "self.col_start": f"{R}[1]", "self.row_end": f"{R}[2]", "self.col_end": f"{R}[3]"}
     for k, v in want.items():
-        got = resolve(single[k]) if k in single else None
+        got = txt(ref_fx.get(k))
         rep.ob("C12.R2", sm, f"Cell._set_merge: {k} = {v}", got == v, f"found {got}", key=f"C12.R2@_set_merge:{k}")
     cb_cls = repo.func("cell.py", "CellBorder.__init__")
     cb_params = [a.arg for a in cb_cls.args.args][1:]
-    borders = [c for c in body_walk(sm) if isinstance(c, ast.Call) and call_name(c) == "CellBorder" and (c.args or c.keywords)]
+    bcall = ref_fx.get("self._border")
     flags = {}
-    if len(borders) == 1:
-        for p_, a_ in zip(cb_params, borders[0].args):
-            flags[p_] = resolve(a_)
-        for kw in borders[0].keywords:
-            flags[kw.arg] = resolve(kw.value)
+    if isinstance(bcall, ast.Call) and call_name(bcall) == "CellBorder":
+        for p_, a_ in zip(cb_params, bcall.args):
+            flags[p_] = txt(a_)
+        for kw in bcall.keywords:
+            flags[kw.arg] = txt(kw.value)
+    borders = [c for c in body_walk(sm) if isinstance(c, ast.Call) and call_name(c) == "CellBorder" and (c.args or c.keywords)]
     for k, v in {"top_merged": f"self.row>{R}[0]", "right_merged": f"self.col<{R}[3]", "bottom_merged": f"self.row<{R}[2]", "left_merged": f"self.col>{R}[1]"}.items():
         rep.ob("C12.R2", borders[0] if borders else sm, f"Cell._set_merge: {k} = {v}", flags.get(k) == v, f"found {flags.get(k)}", key=f"C12.R2@_set_merge:{k}")
-    rng = resolve(single["self.merge_range"]) if "self.merge_range" in single else None
-    mranges = [resolve(n.value) for n in body_walk(sm) if isinstance(n, ast.Assign) and U(n.targets[0]) == "self.merge_range"]
-    rep.ob("C12.R2", sm, "Cell._set_merge: merge_range = xl_range(*rect)", f"xl_range(*{R})" in mranges, f"found {mranges}", key="C12.R2@_set_merge:range")
+    mrange = txt(ref_fx.get("self.merge_range"))
+    rep.ob("C12.R2", sm, "Cell._set_merge: merge_range = xl_range(*rect)", mrange == f"xl_range(*{R})", f"found {mrange}", key="C12.R2@_set_merge:range")
     # anchor branch
-    anchor_if = [n for n in body_walk(sm) if isinstance(n, ast.If) and "MergeAnchor" in U(n.test)]
-    ok = bool(anchor_if) and any(isinstance(x, ast.Assign) and U(x.targets[0]) == "self.is_merged" and U(x.value) == "True" for x in anchor_if[0].body) and \
-        any(isinstance(x, ast.Assign) and U(x.targets[0]) == "self.size" and U(x.value) == "merge_ref.size" for x in anchor_if[0].body)
-    rep.ob("C12.R2", sm, "Cell._set_merge: anchors report is_merged and their size", ok, "", key="C12.R2@_set_merge:anchor")
+    ok = txt(anc_fx.get("self.is_merged")) == "True" and txt(anc_fx.get("self.size")) == "merge_ref.size"
+    rep.ob("C12.R2", sm, "Cell._set_merge: anchors report is_merged and their size", ok,
+           "" if ok else f"an anchor gets is_merged = {txt(anc_fx.get('self.is_merged'))}, size = {txt(anc_fx.get('self.size'))}", key="C12.R2@_set_merge:anchor")
     mr = repo.func("cell.py", "MergeReference.__init__")
     ok = any(isinstance(n, ast.Assign) and U(n.targets[0]) == "self.rect" and U(n.value).replace(" ", "") == "(row_start,col_start,row_end,col_end)" for n in body_walk(mr))
     ok = ok and [a.arg for a in mr.args.args][1:] == ["row_start", "col_start", "row_end", "col_end"]
@@ -474,6 +466,8 @@ def run(repo, rep, tier):
 
 
 VARIANTS = [
+    T("set-merge-tuple-unpack", "cell.py", '            self.row_start = merge_ref.rect[0]\n            self.col_start = merge_ref.rect[1]\n            self.row_end = merge_ref.rect[2]\n            self.col_end = merge_ref.rect[3]\n', "            (self.row_start, self.col_start, self.row_end, self.col_end) = merge_ref.rect\n"),
+    M("set-merge-tuple-unpack-swapped", "cell.py", '            self.row_start = merge_ref.rect[0]\n            self.col_start = merge_ref.rect[1]\n            self.row_end = merge_ref.rect[2]\n            self.col_end = merge_ref.rect[3]\n', "            (self.row_start, self.row_end, self.col_start, self.col_end) = merge_ref.rect\n", "C12.R2"),
     M("writer-filters-ranges", "model.py", "            size = merge_cells.size(row_col)\n            cell_id =", "            size = merge_cells.size(row_col)\n            if row_col[0] + size[0] > self.number_of_columns(table_id):\n                continue\n            cell_id =", "C12.R3"),
     M("reader-skips-region-map-when-owner-merges", "model.py", "        if base_data_store.merge_region_map.identifier == 0:\n            return\n\n        cell_ranges =",
       "        if self._merge_cells[table_id].merge_cells() or base_data_store.merge_region_map.identifier == 0:\n            return\n\n        cell_ranges =", "C12.R3"),
